@@ -2,6 +2,7 @@ import PersimVerif.Lemmas.RowsSound
 import PersimVerif.Lemmas.RowsExtract
 import PersimVerif.Props.C07
 import Mathlib.Data.List.FinRange
+import Mathlib.Algebra.Order.Field.Rat
 
 /-!
 # C06 — returned matchings certify the reported bottleneck / Wasserstein distance
@@ -54,6 +55,42 @@ theorem checkCore_sound_ws [AddCommMonoid K] [DecidableEq K] {rows : List (Row K
   exact ⟨t.toPM, by rw [t.sum_eq c u v _ hc', rowsSum_eq_sum_fin]⟩
 
 end Core
+
+/-- **the structural flag alone** (no arithmetic, so it is exact at `Float` too — this is the part of
+    `cert.rows.ws` / `cert.rows.bn.f` that is decided exactly): rows passing `structOk` describe a
+    partial matching — `p` pairs `i` with `j` iff `(i, j, _)` is a row, sends `i` to the diagonal iff
+    `(i, -1, _)` is a row, and leaves `j` unmatched iff `(-1, j, _)` is a row. -/
+theorem structOk_sound {K : Type} {M N : Nat} (rows : List (Row K)) (h : structOk M N rows = true) :
+    ∃ p : PM (Fin M) (Fin N),
+      (∀ i j, p.f i = some j ↔ ∃ r ∈ rows, r.i = ((i : Nat) : Int) ∧ r.j = ((j : Nat) : Int))
+      ∧ (∀ i, p.f i = none ↔ ∃ r ∈ rows, r.i = ((i : Nat) : Int) ∧ r.j = -1)
+      ∧ (∀ j, p.g j = none ↔ ∃ r ∈ rows, r.i = -1 ∧ r.j = ((j : Nat) : Int)) := by
+  obtain ⟨t, hi, hj⟩ := exists_table rows h
+  refine ⟨t.toPM, fun i j => ?_, fun i => ?_, fun j => ?_⟩
+  · rw [t.toPM_f_some]
+    constructor
+    · intro hf
+      exact ⟨rows[t.rowOf i], List.getElem_mem _, by rw [← hi, t.ri_rowOf], by rw [← hj, hf]⟩
+    · rintro ⟨r, hr, h1, h2⟩
+      obtain ⟨a, ha, rfl⟩ := List.getElem_of_mem hr
+      have : (⟨a, ha⟩ : Fin rows.length) = t.rowOf i := (t.rowOf_spec i _).mp (by rw [hi]; exact h1)
+      rw [← this, hj]; exact h2
+  · rw [t.toPM_f_none]
+    constructor
+    · intro hf
+      exact ⟨rows[t.rowOf i], List.getElem_mem _, by rw [← hi, t.ri_rowOf], by rw [← hj, hf]⟩
+    · rintro ⟨r, hr, h1, h2⟩
+      obtain ⟨a, ha, rfl⟩ := List.getElem_of_mem hr
+      have : (⟨a, ha⟩ : Fin rows.length) = t.rowOf i := (t.rowOf_spec i _).mp (by rw [hi]; exact h1)
+      rw [← this, hj]; exact h2
+  · rw [t.toPM_g_none]
+    constructor
+    · intro hg
+      exact ⟨rows[t.colOf j], List.getElem_mem _, by rw [← hi, hg], by rw [← hj, t.rj_colOf]⟩
+    · rintro ⟨r, hr, h1, h2⟩
+      obtain ⟨a, ha, rfl⟩ := List.getElem_of_mem hr
+      have : (⟨a, ha⟩ : Fin rows.length) = t.colOf j := (t.colOf_spec j _).mp (by rw [hj]; exact h2)
+      rw [← this, hi]; exact h1
 
 /-! ### the checker on diagrams (placeholder-adjusted index types) -/
 
@@ -203,6 +240,30 @@ theorem extractRows_ws_eq_bn [Zero K] (hfin : AllFinite M N D σ) :
     extractRowsWs M N D σ = extractRowsBn M N D σ := by
   rw [extractRowsWs_eq hfin, extractRowsBn_eq hfin]
 
+/-- **`bn_rows_certify`** (DESIGN.md C06): extraction composed with soundness.  For every perfect
+    matching `σ` of the finite entries all `≤ d`, `d` the least feasible threshold: the returned
+    rows are a partial matching with every pairing `≤ d` and one `= d`. -/
+theorem bn_rows_certify [LinearOrder K] [Zero K] (hD : IsAug M N c u v D)
+    (hσ : σ.Perm (List.range (M + N))) (hfin : AllFinite M N D σ) (hpos : 0 < M + N)
+    (hc0 : ∀ i j, 0 ≤ c i j) (hu0 : ∀ i, 0 ≤ u i) (hv0 : ∀ j, 0 ≤ v j) {d : K}
+    (hle : ∀ i < M + N, ∀ e, selected D σ i = some e → e ≤ d) (hleast : LeastFeasible M N D d) :
+    ∃ rows, extractRowsBn M N D σ = some rows ∧ checkCore M N c u v rows = true
+      ∧ rowsMax rows = some d
+      ∧ ∃ p : PM (Fin M) (Fin N), p.MaxLE c u v d ∧ AttainsMax p c u v d := by
+  obtain ⟨rows, he, hc, hm⟩ := extractRows_bn_accepted hD hσ hfin
+  have hmax := hm d hpos hc0 hu0 hv0 hle hleast
+  exact ⟨rows, he, hc, hmax, checkCore_sound_bn c u v hc0 hu0 hv0 hc hmax⟩
+
+/-- **`ws_rows_certify`** (DESIGN.md C06): the returned rows are a partial matching whose total
+    cost is the reported `matchdist` (the sum of all selected entries). -/
+theorem ws_rows_certify [AddCommMonoid K] [DecidableEq K] (hD : IsAug M N c u v D)
+    (hσ : σ.Perm (List.range (M + N))) (hfin : AllFinite M N D σ) :
+    ∃ rows w, extractRowsWs M N D σ = some rows ∧ selectedSum M N D σ = some w
+      ∧ checkCore M N c u v rows = true ∧ rowsSum rows = w
+      ∧ ∃ p : PM (Fin M) (Fin N), p.sumCost c u v = w := by
+  obtain ⟨rows, he, hc, hs⟩ := extractRows_ws_accepted hD hσ hfin
+  exact ⟨rows, rowsSum rows, he, hs, hc, rfl, checkCore_sound_ws c u v hc⟩
+
 /-- a permutation of `Fin (M+N)` as the list the model consumes -/
 def permList {n : Nat} (σ : Equiv.Perm (Fin n)) : List Nat := List.ofFn fun i => ((σ i : Fin n) : Nat)
 
@@ -296,6 +357,17 @@ theorem bottleneck_rows_certify (S T : List (K × K)) (hS : ∀ p ∈ S, p.1 ≤
   exact ⟨p, hp, ha, fun hB q d' hq => not_lt.mpr (hB.least q d' hq)⟩
 
 end CostRules
+
+/-- **the function the driver executes** (`Rows.checkBnRat`, compiled without Mathlib, core `Rat`
+    instances) is an instance of the theorem above at `K = ℚ`: whenever `cert.rows.bn` answers
+    `T` on the rows returned by the real code, those rows are a partial matching of the two
+    diagrams whose largest L∞ / `(d-b)/2` cost is exactly the reported distance. -/
+theorem checkBnRat_certifies (S T : List (ℚ × ℚ)) (hS : ∀ p ∈ S, p.1 ≤ p.2) (hT : ∀ p ∈ T, p.1 ≤ p.2)
+    (rows : List (Row ℚ)) (d : ℚ) (h : checkBnRat S T rows d = true) :
+    ∃ p : PM (PIdx S) (PIdx T), p.MaxLE (cP linf S T) (uP diagInf S) (uP diagInf T) d
+      ∧ AttainsMax p (cP linf S T) (uP diagInf S) (uP diagInf T) d := by
+  obtain ⟨p, hp, ha, -⟩ := bottleneck_rows_certify S T hS hT rows d h
+  exact ⟨p, hp, ha⟩
 
 section Reals
 open PersimVerif.C07
